@@ -152,8 +152,7 @@ Fixpoint sub_val (t : ty) (mv : tval) {struct t} : outcome (tval * bool * bool) 
             r <- sub_val e (me, x) ;;
             let '(nv, s, ad) := r in
             if negb s then Ok (mv, false, false)
-            else if ad then Ok ((TPtr (fst nv), VPtr (snd nv)), true, false)
-            else Panic 7
+            else (px <- set_into e nv ;; Ok ((t, VPtr px), true, false))   (* reflect.New(t.Elem()); Set *)
         | _ => Panic 250
         end
   | TMap kt vt _ =>
